@@ -214,6 +214,11 @@ func numOf(v reflect.Value) (*big.Float, bool) {
 	case bigIntType:
 		x := v.Interface().(big.Int)
 		return new(big.Float).SetPrec(4096).SetInt(&x), true
+	case bigRatType:
+		// an integral rational is an integer on the wire
+		if x := v.Interface().(big.Rat); x.IsInt() {
+			return new(big.Float).SetPrec(4096).SetInt(x.Num()), true
+		}
 	}
 	return nil, false
 }
@@ -323,6 +328,14 @@ func (c *eqctx) loose(a, b reflect.Value, path string) string {
 			return ""
 		}
 		return fmt.Sprintf("%s: string %q came back as %s %v", path, a.String(), b.Type(), b.Interface())
+	}
+	if a.Type() == bigFloatType && b.Kind() == reflect.Float64 {
+		// a big float is a double on the wire; an interface{} destination gets a float64
+		x := a.Interface().(big.Float)
+		if f, _ := x.Float64(); floatEq(f, b.Float()) {
+			return ""
+		}
+		return fmt.Sprintf("%s: big.Float %s vs %v", path, x.Text('g', -1), b.Float())
 	}
 	if a.Type() == bigRatType && b.Kind() == reflect.String {
 		// a non-integer rational is a string "a/b" on the wire; an interface{} destination keeps the text
